@@ -109,6 +109,39 @@ def torch_checks(ck):
             except (AssertionError, RuntimeError, ValueError):
                 pass
             ck.case({"kind": "torch-reject", "k": k, "n": n + 1}, kind="torch_reject")
+    # tau is a Python float: values that binary32 cannot represent (1e-46, 1e39: positive, finite) must not be rounded to 0 / inf before
+    # the division - the score is the float32 nearest to count / tau (0 for an empty class, not 0 / 0); float32, 16-bit and integer inputs
+    import numpy as _np
+    for tau in (1e-46, 1e-300, 5e-324, 1e39, 3.5e38, 1e300):
+        for dt in (torch.float32, torch.float64, torch.bfloat16, torch.uint8, torch.bool):
+            x = torch.tensor([[1, 1, 0, 0, 0, 0], [0, 0, 1, 0, 1, 1]]).to(dt)
+            case = {"kind": "torch-extreme-tau", "tau": tau, "dtype": str(dt)}
+            ck.case(case, nontrivial=True, kind="torch-extreme-tau")
+            try:
+                y = GroupSum(3, tau, device="cpu")(x)
+            except Exception as e:
+                ck.disagree("GroupSum refuses a positive finite tau", case, observed=repr(e)[:160], signature={"what": "torch-extreme-tau", "kind": "error"})
+                continue
+            with _np.errstate(over="ignore", under="ignore"):
+                want = (_np.array([[2, 0, 0], [0, 1, 2]], dtype=_np.float64) / tau).astype(_np.float64 if y.dtype == torch.float64 else _np.float32)
+            got = y.double().numpy()
+            if not _np.array_equal(got, want.astype(_np.float64)):
+                ck.disagree("GroupSum is not count/tau for a tau that binary32 cannot represent (tau rounded to 0 or inf before the division)",
+                            case, expected=want.tolist(), observed=got.tolist(), signature={"what": "torch-extreme-tau", "kind": "wrong"})
+    for tau in (0.0, -1.0, float("nan"), float("inf"), -0.0):
+        ck.case({"kind": "torch-invalid-tau", "tau": repr(tau)}, kind="torch-invalid-tau")
+        for how in ("constructor", "attribute"):
+            try:
+                if how == "constructor":
+                    gs = GroupSum(3, tau, device="cpu")
+                else:
+                    gs = GroupSum(3, 1.0, device="cpu")
+                    gs.tau = tau
+                y = gs(torch.tensor([[1.0, 1, 0, 0, 0, 0]]))
+            except Exception:
+                continue
+            ck.disagree("GroupSum accepts a tau that is not positive and finite and returns numbers (inf / NaN scores, or the class ranking reversed)",
+                        {"tau": repr(tau), "given": how}, observed=y.tolist(), signature={"what": "torch-invalid-tau"})
     # model evaluated in the kernel
     txt = ("From Coq Require Import ZArith QArith List Bool. Import ListNotations.\nFrom TLX Require Import Model.GroupSum.\n"
            "Definition show (q : Q) := let r := Qred q in (Qnum r, Zpos (Qden r)).\n")
